@@ -83,12 +83,17 @@ def run_slice(case, ctx):
     before = rows_of(x)
     oc = case['oc']
     if case.get('tod'):
-        lb = None if case['lb'] is None else datetime.time(*case['lb'])
-        ub = None if case['ub'] is None else datetime.time(*case['ub'])
+        mk = lambda b: None if b is None else (bound(b, grid) if isinstance(b, dict) else datetime.time(*b))
+        lb, ub = mk(case['lb']), mk(case['ub'])
         args = (x, lb, ub, oc) if oc else (x, lb, ub)
         eff = oc or '(]'
         st, res = ctx.call(df_slice, *args)
-        if lb is not None and ub is not None and lb > ub:
+        if isinstance(lb, datetime.datetime) or isinstance(ub, datetime.datetime):
+            # one bound a date, the other a time of day: each applies in its own terms
+            keep = [(t, r) for t, r in before if (inside(t, lb, None, eff) if isinstance(lb, datetime.datetime) else inside(t.time(), lb, None, eff)) and
+                    (inside(t, None, ub, eff) if isinstance(ub, datetime.datetime) else inside(t.time(), None, ub, eff))]
+            ctx.cls('tod:mixed_with_date_bound')
+        elif lb is not None and ub is not None and lb > ub:
             keep = [(t, r) for t, r in before if inside(t.time(), lb, None, eff) or inside(t.time(), None, ub, eff)]
             ctx.cls('tod:wraps_midnight')
         else:
@@ -117,7 +122,7 @@ def run_slice(case, ctx):
     idxset = {t for t, _ in before}
     if case.get('tod'):
         tset = {t.time() for t in idxset}
-        on_point = (lb in tset) or (ub in tset)
+        on_point = (lb in tset) or (ub in tset) or (lb in idxset) or (ub in idxset)
     else:
         on_point = (lb in idxset) or (ub in idxset)
     if on_point:
@@ -197,6 +202,7 @@ def run_stitch(case, ctx):
             pieces = [un[u] for u in un]
             st2, again = ctx.call(df_slice, list(pieces), ub=[u for u in un], n=n) if len(pieces) > 1 else ('ok', None)
             if len(pieces) > 1:
+                mech = None
                 ok2 = st2 == 'ok' and isinstance(again, (pd.Series, pd.DataFrame))
                 if ok2:
                     am = {}
@@ -205,7 +211,10 @@ def run_stitch(case, ctx):
                     w2 = max([len(r) for r in list(am.values()) + list(gm.values())] + [1])
                     pad = lambda r: list(r) + [NAN] * (w2 - len(r))
                     ok2 = set(am) == set(gm) and all(req(pad(am[t]), pad(gm[t])) for t in gm)
-                ctx.check('unslice_roundtrip', ok2, lambda: 're-stitching df_unslice(S, ub) with n=%d does not reproduce S: %s vs %s' % (n, rows_of(again)[:8] if st2 == 'ok' and again is not None else again, got[:8]))
+                    # known finding: rows of the frame that are NaN in every column cannot be told from 'no data' and are lost
+                    if not ok2 and set(am) <= set(gm) and all(req(pad(am[t]), pad(gm[t])) for t in am) and all(all(isn(v) for v in gm[t]) for t in set(gm) - set(am)):
+                        mech = 'unslice-restitch-loses-rows-that-are-NaN-in-every-column'
+                ctx.check('unslice_roundtrip', ok2, lambda: 're-stitching df_unslice(S, ub) with n=%d does not reproduce S: %s vs %s' % (n, rows_of(again)[:8] if st2 == 'ok' and again is not None else again, got[:8]), mech)
     allpts = {t for s in srows for t, _ in s}
     if any(u in allpts for u in ubs):
         ctx.mark_nontrivial(case)
@@ -258,8 +267,8 @@ def gen_case(rng):
         grid = rng.choice(['d', 'd', 'h'])
         span = 20 if grid == 'd' else 60
         ts = gen_index(rng, grid)
-        k = rng.choice([1, 1, 2, 3])
-        spec = {'ts': ts, 'cols': [[float(next(ids)) if rng.random() > 0.1 else None for _ in ts] for _ in range(k)], 'frame': k > 1 or rng.random() < 0.2}
+        k = rng.choice([1, 1, 2, 3]) if rng.random() > 0.04 else 0       # 0: a frame with timestamps but no columns (a schedule)
+        spec = {'ts': ts, 'cols': [[float(next(ids)) if rng.random() > 0.1 else None for _ in ts] for _ in range(k)], 'frame': k != 1 or rng.random() < 0.2}
         lb, ub = gen_bound(rng, ts, grid, span), gen_bound(rng, ts, grid, span)
         if rng.random() < 0.12 and lb is not None:
             ub = dict(lb)    # degenerate window lb == ub
@@ -279,6 +288,10 @@ def gen_case(rng):
                 return [h, 0, 0, rng.choice([0, 0, 250000, 500000])] if sub else [h, 0]
             return [rng.randrange(24), 30]
         case = {'kind': 'slice', 'grid': 'h', 'tod': True, 'x': spec, 'lb': pick(), 'ub': pick(), 'oc': rng.choice(['()', '(]', '[)', '[]', None])}
+        if rng.random() < 0.15:
+            which = rng.choice(['lb', 'ub'])
+            if case['ub' if which == 'lb' else 'lb'] is not None:
+                case[which] = {'i': rng.choice(ts) if rng.random() < 0.6 else rng.randrange(72), 'off': 0}
         if len(ts) >= 3 and rng.random() < 0.5:
             inner = sorted(rng.sample(range(ts[0] + 1, ts[-1]), min(len(ts) - 2, ts[-1] - ts[0] - 1))) if ts[-1] - ts[0] - 1 >= len(ts) - 2 else None
             if inner is not None and [ts[0]] + inner + [ts[-1]] != ts:
@@ -292,6 +305,9 @@ def gen_case(rng):
     for _ in range(k):
         ts = gen_index(rng, grid, 10)
         series.append({'ts': ts, 'cols': [[float(next(ids)) for _ in ts]]})
+    if rng.random() < 0.2:
+        for s_ in series:        # genuine NaN observations: rows of the stitched frame like any other
+            s_['cols'] = [[None if rng.random() < 0.25 else v for v in s_['cols'][0]]]
     allpts = sorted({t for s in series for t in s['ts']})
     cands = sorted(set(rng.sample(range(span), min(span, k + 3))) | set(rng.sample(allpts, min(len(allpts), k))))
     pts = sorted(rng.sample(cands, k))
